@@ -70,7 +70,9 @@ fn case() -> impl Strategy<Value = EditCase> {
         2 => Just(Probe::Vars),
         1 => any::<u16>().prop_map(Probe::Goto),
     ];
-    (gen::program(cfg), gen::style(), any::<u64>(), super::c07::replies(), prop_oneof![1u16..40, 1u16..400, Just(2000u16)], edit, probe)
+    // a third of the programs define no function at all (and so never fill the function table)
+    let prog = prop_oneof![7 => gen::program(cfg), 3 => gen::program_without_defs(cfg)];
+    (prog, gen::style(), any::<u64>(), super::c07::replies(), prop_oneof![1u16..40, 1u16..400, Just(2000u16)], edit, probe)
         .prop_map(|(prog, style, seed, replies, after_calls, edit, probe)| EditCase { prog, style, seed, replies, after_calls, edit, probe })
 }
 
